@@ -29,6 +29,7 @@ import (
 )
 
 type c07Hold struct {
+	fail     bool // answer the K-th request with 500 instead of holding it
 	k        int64
 	n        int64
 	held     chan struct{}
@@ -42,6 +43,10 @@ func (h *c07Hold) ServeHTTP(w http.ResponseWriter, r *http.Request) {
 	if r.Method == "GET" && strings.HasSuffix(r.URL.Path, ".cacnk") {
 		n := atomic.AddInt64(&h.n, 1)
 		if n == h.k {
+			if h.fail {
+				http.Error(w, "injected failure", http.StatusInternalServerError)
+				return
+			}
 			h.once.Do(func() { close(h.held) })
 			<-h.release
 		}
@@ -68,8 +73,8 @@ func c07StatFile(p string) (*c07Stat, error) {
 	return &c07Stat{Ino: st.Ino, Size: fi.Size(), Data: b}, nil
 }
 
-// c07CLICase: Variant = "sigint" | "sigterm", with suffix "/inplace" for -k, "/fresh" when the destination
-// does not exist beforehand.
+// c07CLICase: Variant = "sigint" | "sigterm" | "http500" (no signal: the K-th chunk request fails instead), with
+// suffix "/inplace" for -k, "/fresh" when the destination does not exist beforehand.
 func c07CLICase(a vh.Args, r *vh.Result, c *c07Case) error {
 	bin := os.Getenv("VH_DESYNC")
 	if bin == "" {
@@ -118,7 +123,8 @@ func c07CLICase(a vh.Args, r *vh.Result, c *c07Case) error {
 			return err
 		}
 	}
-	h := &c07Hold{k: int64(c.K), held: make(chan struct{}), release: make(chan struct{}), inner: http.FileServer(http.Dir(sdir))}
+	failing := strings.HasPrefix(c.Variant, "http500")
+	h := &c07Hold{fail: failing, k: int64(c.K), held: make(chan struct{}), release: make(chan struct{}), inner: http.FileServer(http.Dir(sdir))}
 	srv := httptest.NewServer(h)
 	defer srv.Close()
 
@@ -168,7 +174,7 @@ func c07CLICase(a vh.Args, r *vh.Result, c *c07Case) error {
 	c.Complete = aerr == nil && bytes.Equal(after.Data, in.Blob)
 
 	key := fmt.Sprintf("cli|%s|%d|%d|%d", c.Variant, c.N, c.K, len(c.Sizes))
-	r.Count(key, signalled)
+	r.Count(key, signalled || (failing && c.K <= c.Hits))
 	r.Dist("cli:" + c.Variant)
 	r.Dist("cli-result:" + c.Got)
 	if ctx.Err() != nil {
@@ -178,7 +184,10 @@ func c07CLICase(a vh.Args, r *vh.Result, c *c07Case) error {
 	if rc == 0 && !c.Complete {
 		r.Fail("predicate", "cli-extract/exit0-but-incomplete", fmt.Sprintf("desync extract (n=%d, %s at chunk request %d) exited 0 but the destination is not the blob", c.N, c.Variant, c.K), c)
 	}
-	if rc != 0 && !signalled {
+	if failing && c.K <= c.Hits && rc == 0 {
+		r.Fail("predicate", "cli-extract/exit0-after-failed-request", fmt.Sprintf("desync extract exited 0 although chunk request %d was answered with 500", c.K), c)
+	}
+	if rc != 0 && !signalled && !(failing && c.K <= c.Hits) {
 		r.Fail("predicate", "cli-extract/error-without-signal", fmt.Sprintf("desync extract exited %d without having been signalled: %s", rc, c.Detail), c)
 	}
 	if rc != 0 && !inplace {
@@ -218,7 +227,7 @@ func c07CLI(a vh.Args, r *vh.Result, rng *vh.Rand) error {
 	}
 	nch := 24
 	in := bkDupInput(rng, nch, nch, 60)
-	variants := []string{"sigint", "sigterm", "sigint/inplace", "sigterm/fresh"}
+	variants := []string{"sigint", "sigterm", "sigint/inplace", "sigterm/fresh", "http500", "http500/fresh"}
 	ks := []int{1, 2, 3, 5, 9, 17, nch, nch + 5}
 	ns := []int{1, 4}
 	if a.Tier == "thorough" {
